@@ -33,7 +33,15 @@ point (mc.sched.Chooser): choice 0 is the normal answer, choice k applies
   ('wrongcode',)      valid frame with another response code
   ('wrongtfi',)       valid frame with another frame identifier
   ('garble', part)    one byte of sof / lcs / dcs / postamble / payload wrong
+  ('short', n)        RC-S380: valid frame whose payload has only n bytes
   ('sw', v) ('ccidtype',) ('ccidlen',)     ACR122 envelope faults
+
+`alphabet=REDUCED` keeps a few representatives of every class (used for the
+two-deviation pass).  `transport.io_hook(op, transport)`, if set, is called at
+the start of every transport read/write (scheduling point / overlap detector
+for the thread checks).  `chip.cmdlog` lists every host command (name, code,
+payload), `chip.written` every raw frame, `tag.rf_log` / `initiator.received`
+what went over the simulated air.
 
 Time is virtual: a read with nothing queued advances the clock by its
 timeout and raises IOError(ETIMEDOUT) like the real transports do; a read
@@ -476,7 +484,7 @@ class PN53xCore(object):
         ans = t.answer(p)
         if ans is None:
             return b'\x01'
-        rxm, txm = self.regs[R['RxMode']], self.regs[R['TxMode']]
+        rxm = self.regs[R['RxMode']]
         if rxm & 0x03 == 0 and rxm & 0x80 == 0 and len(ans) > 1 \
                 and not t.with_crc:
             ans = refcrc.append_a(ans)         # RxCRCEn off: CRC is passed up
@@ -950,8 +958,12 @@ class FrameTransport(object):
         self.product_name = product
         self.reads = 0
         self.closed = False
+        self.io_hook = None     # io_hook(op, transport): e.g. a scheduling
+                                # point / overlap detector for thread checks
 
     def write(self, frame, timeout=0):
+        if self.io_hook is not None:
+            self.io_hook('write', self)
         plan = self.chip.host_write(frame)
         if plan.write_exc is not None:
             raise plan.write_exc
@@ -959,6 +971,8 @@ class FrameTransport(object):
         self.out.extend(plan.items)
 
     def read(self, timeout=0):
+        if self.io_hook is not None:
+            self.io_hook('read', self)
         self.reads += 1
         if not self.out:
             if not timeout:
@@ -1067,6 +1081,7 @@ def sim_tty_class():
             self.arygon_version = arygon_version
             self.opened = []
             self.tty = None
+            self.io_hook = None
             self.open('/dev/ttySIM0')
 
         def open(self, port, baudrate=115200):
@@ -1085,6 +1100,8 @@ def sim_tty_class():
                     self.tty.lines.append(b'FF000000\r\n')
 
         def write(self, frame):
+            if self.io_hook is not None:
+                self.io_hook('write', self)
             plan = self.chip.host_write(frame)
             if plan.write_exc is not None:
                 raise plan.write_exc
@@ -1093,6 +1110,8 @@ def sim_tty_class():
             self.pending.extend(plan.items)
 
         def read(self, timeout):
+            if self.io_hook is not None:
+                self.io_hook('read', self)
             if self.pending:
                 item = self.pending.popleft()
                 if isinstance(item, Exception):
